@@ -4,7 +4,7 @@ import ast
 from ..core.loader import AnalysisError, dotted, norm, own_nodes, where, enclosing_class
 from ..core.terms import Evaluator, Term, cmp_struct, holds_at, same_cmp, NEG
 from ..core.symexec import run_paths, calls_on
-from .util import (evaluator, path_conds_struct, cond_taken, find_try_handler, handler_names, raises_in,
+from .util import (evaluator, rdotted, path_conds_struct, cond_taken, find_try_handler, handler_names, raises_in,
                    is_super_call, single_return_term)
 
 STREAM = "smpl_extract/util/stream.py"
@@ -355,6 +355,17 @@ def _check_super_init(ctx, init, rule, label, wants):
 
 # ------------------------------------------------------------------------ S4
 def rule_S4(ctx):
+    """full rule (C08: stream semantics, including the empty request at the end of a chain)"""
+    _s4(ctx, True)
+
+
+def rule_S4p(ctx):
+    """export-relevant part (C01/C02/C15): everything except the empty-request guard, whose absence only turns
+    read(0) at the end of a chain into SectorReadError - which the transcoders treat as end of data"""
+    _s4(ctx, False)
+
+
+def _s4(ctx, zero_guard):
     fn = _method(ctx, SECTOR, "SectorStream", "_read", "S4")
     size = [a.arg for a in fn.args.args][1]
     prs = run_paths(ctx, fn, rule="S4")
@@ -378,16 +389,21 @@ def rule_S4(ctx):
         if not calls:
             if p.end == "return":
                 conds = path_conds_struct(ctx, fn, p)
-                z = any(holds_at(d, op if t else NEG[op], **{size: 0}) for d, op, t, _ in conds if d.atoms() <= {size})
-                ctx.ob("S4", p.ret_node, "a path without sector access is taken only for an empty request", bool(z),
-                       "" if z else "a return path skips all sector reads for a non-empty request", inst=f"noaccess:{_pc(p)}")
+                # decided on the one-variable linear tests over `size`: for every size >= 1 some test on the path fails
+                only = [(d, op if t else NEG[op]) for d, op, t, _ in conds if d.atoms() and d.atoms() <= {size}]
+                pts = list(range(1, 4097)) + [1 << 20, 1 << 40]
+                bad = [k for k in pts if all(holds_at(d, op, **{size: k}) is not False for d, op in only)]
+                z = not bad
+                ctx.ob("S4", p.ret_node, "a path without sector access is taken only for an empty request", z,
+                       "" if z else f"a return path skips all sector reads for a request of {bad[0]} byte(s)", inst=f"noaccess:{_pc(p)}")
             continue
         n_calls_total += len(calls)
         conds = path_conds_struct(ctx, fn, p)
         guarded = any(d.atoms() <= {size} and d.atoms() and holds_at(d, op if t else NEG[op], **{size: 0}) is False for d, op, t, _ in conds)
-        ctx.ob("S4", calls[0][0], "(d) every sector access is preceded by a test that excludes an empty request", guarded,
-               "" if guarded else f"path through lines {p.lines()} reaches _read_sector with size == 0 possible: addresses one sector past the chain at its end",
-               inst=f"zero-guard:{_pc(p)}")
+        if zero_guard:
+            ctx.ob("S4", calls[0][0], "(d) every sector access is preceded by a test that excludes an empty request", guarded,
+                   "" if guarded else f"path through lines {p.lines()} reaches _read_sector with size == 0 possible: addresses one sector past the chain at its end",
+                   inst=f"zero-guard:{_pc(p)}")
         # (c) first piece
         c0, env0, st0 = calls[0]
         ev = evaluator(ctx, fn, env0)
@@ -594,15 +610,16 @@ def rule_S5(ctx):
             amount = evaluator(ctx, read, env).ev(c.args[0])
         eof_pos = any(t and "self.end_of_file > 0" in c for c, t, _ in p.conds)
         conds = path_conds_struct(ctx, read, p)
+        clamp = lambda t: A("max(" + ",".join(sorted(["0", t.key()])) + ")")  # noqa: E731
         if ok and eof_pos:
-            if amount == clip:
+            if amount == clip or amount == clamp(clip):
                 n_clip += 1
             elif amount == C(0):
                 ok = cond_taken(conds, clip, "<")
             else:
                 ok = False
         elif ok:
-            ok = amount in (SZ, C(0))
+            ok = amount in (SZ, C(0), clamp(SZ))
         ctx.ob("S5", p.ret_node, "the amount read is min(end_of_file - position, size) (0 when that is negative)", bool(ok),
                "" if ok else f"amount read on [{_pc(p)}] is {amount.key() if amount is not None else '?'}", inst=f"clip:{_pc(p)}")
         if amount is not None:
@@ -758,10 +775,10 @@ def rule_S6(ctx):
     rs = _method(ctx, SECTOR, "SectorStream", "_read_sector", "S6")
     rp = [a.arg for a in rs.args.args][1:]
     for p in [p for p in run_paths(ctx, rs, rule="S6") if p.end == "return"]:
-        subs = [(c, e, s) for c, e, s in calls_on(p) if (dotted(c.func) or "").startswith("self.substream.")]
-        reads = [i for i, x in enumerate(subs) if dotted(x[0].func) == "self.substream.read"]
+        subs = [(c, e, s) for c, e, s in calls_on(p) if (rdotted(c, e) or "").startswith("self.substream.")]
+        reads = [i for i, x in enumerate(subs) if rdotted(x[0], x[1]) == "self.substream.read"]
         for i in reads:
-            ok = i > 0 and dotted(subs[i - 1][0].func) == "self.substream.seek"
+            ok = i > 0 and rdotted(subs[i - 1][0], subs[i - 1][1]) == "self.substream.seek"
             det = "the substream read is not immediately preceded by a substream seek"
             if ok:
                 ev = evaluator(ctx, rs, subs[i - 1][1])
@@ -861,8 +878,8 @@ def rule_S7(ctx):
             ev = evaluator(ctx, rr, rs[0][1])
             shape = rs[0][0].args[-1]
             sh = ev.ev(shape).key()
-            if sh not in (f"list(floordiv({sz},self.sample_width),self.sample_width)", f"tuple(floordiv({sz},self.sample_width),self.sample_width)",
-                          f"tuple(-1,self.sample_width)", f"list(-1,self.sample_width)"):
+            if sh not in (f"[floordiv({sz},self.sample_width),self.sample_width]", f"tuple(floordiv({sz},self.sample_width),self.sample_width)",
+                          f"tuple(-1,self.sample_width)", f"[-1,self.sample_width]"):
                 ok = False
                 det.append(f"reshape to {sh} is not rows of sample_width bytes")
         fl = calls.get("flip", []) + calls.get("flipud", [])
